@@ -87,6 +87,12 @@ def build_all(report):
             failures["gen_queries"] = (out + err)[-2000:]
         else:
             write_if_changed(os.path.join(hsrc, "gen_queries.rs"), open(tmpf).read())
+        tmpf = os.path.join(WORK, "gen_ctor.rs")
+        rc, out, err = run([sys.executable, os.path.join(HARNESS, "gen", "gen_ctor.py"), tmpf])
+        if rc != 0:
+            failures["gen_ctor"] = (out + err)[-2000:]
+        else:
+            write_if_changed(os.path.join(HARNESS, "src", "gen_ctor.rs"), open(tmpf).read())
         tmpf = os.path.join(WORK, "gen_sched.rs")
         rc, out, err = run([sys.executable, os.path.join(HARNESS, "gen", "gen_sched.py"), tmpf])
         if rc != 0:
@@ -114,7 +120,9 @@ def build_all(report):
 
 def strip_comments(text):
     text = re.sub(r"/-.*?-/", "", text, flags=re.S)
-    return "\n".join(l.split("--")[0] for l in text.splitlines())
+    text = "\n".join(l.split("--")[0] for l in text.splitlines())
+    # string literals are data, not constructs
+    return re.sub(r'"(?:[^"\\\n]|\\.)*"', '""', text)
 
 
 def scan_forbidden():
@@ -315,7 +323,7 @@ def match_known(pid, text):
     for f in load_known().get("findings", []):
         if f.get("property") != pid:
             continue
-        if all(re.search(rx, text) for rx in f.get("match", [])):
+        if f.get("match") and all(re.search(rx, text) for rx in f.get("match", [])):
             return f
     return None
 
